@@ -72,7 +72,7 @@ func checkC10(c c10Case) string {
 		b.sub.Add(time.Duration(c.ShiftD))
 		var shifted []cueSpec
 		for _, it := range b.sub.Items {
-			shifted = append(shifted, cueSpec{S: int64(it.StartAt), E: int64(it.EndAt), T: itemText(it)})
+			shifted = append(shifted, cueSpec{S: int64(it.StartAt), E: int64(it.EndAt), T: specText(it)})
 		}
 		b2 := &builtList{sub: b.sub, items: append([]*astisub.Item(nil), b.sub.Items...)}
 		for _, it := range b2.items {
@@ -113,7 +113,7 @@ func checkC10(c c10Case) string {
 	}
 	gotN := map[key]int{}
 	for _, it := range got {
-		gotN[key{int64(it.StartAt), int64(it.EndAt), itemText(it)}]++
+		gotN[key{int64(it.StartAt), int64(it.EndAt), specText(it)}]++
 	}
 	if len(got) != len(want) {
 		return fmt.Sprintf("%d cues after Fragment, specification says %d; %s", len(got), len(want), ctx())
@@ -149,7 +149,7 @@ func checkC10(c c10Case) string {
 	for _, it := range got {
 		ok := false
 		sn := snapItem(it)
-		txt := itemText(it)
+		txt := specText(it)
 		for i, cu := range c.Cues {
 			if cu.S <= int64(it.StartAt) && int64(it.EndAt) <= cu.E && cu.T == txt && snapDiff(sn, b.snaps[i]) == "" {
 				ok = true
@@ -161,6 +161,14 @@ func checkC10(c c10Case) string {
 		}
 	}
 	return ""
+}
+
+// specText is itemText in the notation of the cue specifications: "~" for a cue without any line (see textLines).
+func specText(it *astisub.Item) string {
+	if len(it.Lines) == 0 {
+		return "~"
+	}
+	return itemText(it)
 }
 
 func itemText(it *astisub.Item) string {
@@ -292,7 +300,7 @@ func TestC10(t *testing.T) {
 
 	rapidCheck(t, "C10/random", tier(6000, 500000), func(rt *rapid.T) {
 		maxT := rapid.SampledFrom([]int64{40 * nsMs, 5000 * nsMs, 3600 * 1000 * nsMs}).Draw(rt, "range")
-		cues := genCues(rt, 0, 10, maxT, opTexts)
+		cues := genCues(rt, 0, 10, maxT, opTextsWide)
 		sort.SliceStable(cues, func(i, j int) bool { return cues[i].S < cues[j].S })
 		var maxEnd int64 = 1
 		for _, cu := range cues {
